@@ -89,6 +89,27 @@ def run(ctx):
                 n_dis += 1
                 if n_dis <= 3:
                     filt.report_disagreement(ctx, "negated triple after earlier commands: run_pipeline differs from the specification", db, cmds, drv)
+        # one couple of patterns under SEVERAL relations on one filter (seeded change C05-k: the operands of a triple
+        # memoised per pattern couple, and the memoised set of programs emptied in place by the negated triple): every
+        # triple must be evaluated as on a fresh filter, whatever triples on the same patterns came before it, in the
+        # same command or in an earlier one
+        n = 400 if ctx.tier == "quick" else 30000
+        for i in range(n):
+            db = filt.gen_db(rng, min_programs=3) if rng.random() < 0.7 else filt.gen_db(rng)
+            t = filt.gen_criterion(rng, db, "include", triple_p=1.0, negated=True, bad_ok=False)
+            k = rng.choice([2, 2, 3, 4])
+            triples = [[t[0], filt.gen_predicate(rng, rng.random() < 0.75, False), t[2]] for _ in range(k)]
+            if rng.random() < 0.5:
+                cmds = [{"operation": rng.choice(["include", "include all", "exclude", "exclude all"]), "data": triples}]
+            else:
+                cmds = [{"operation": rng.choice(["include", "include", "exclude", "include all"]), "data": [tr]} for tr in triples]
+            eq, impl, model = filt.compare(db, cmds, drv)
+            ctx.count("one pattern couple under several relations on one filter",
+                      repr((sorted(db["programs"]), cmds, impl.get("final"))), nontrivial=filt.nontrivial(impl, db))
+            if not eq:
+                n_dis += 1
+                if n_dis <= 3:
+                    filt.report_disagreement(ctx, "same pattern couple under several relations: run_pipeline differs from the specification", db, cmds, drv)
         ctx.cov["disagreements_checked"] = n_dis
     finally:
         drv.close()
@@ -96,7 +117,7 @@ def run(ctx):
         "bounded-exhaustive: every assignment of {absent, 5 span multisets} to 3 taxa (A, A/x, B) of one program × 5×5 overlapping "
         "pattern pairs × 8 negated relation spellings (quick: a random slice of 2500 of the 43200); random: richer databases with import "
         "DAGs, 1-2 negated triples per include/exclude (all); sequences: 1-2 earlier commands (impart / include / exclude, mostly on single "
-        "programs of a database with imports) followed by a negated-triple command on the same filter. Non-trivial = the program has at least one taxon (mini) / the selection "
+        "programs of a database with imports) followed by a negated-triple command on the same filter; couples: 2-4 triples on one couple of patterns with different (mostly negated) relations, in one command or in successive commands of one filter. Non-trivial = the program has at least one taxon (mini) / the selection "
         "changed and is neither empty nor everything (random)."
     )
     ctx.cov["trusted_base"] = TRUST
